@@ -5,7 +5,7 @@
    node, described by who signed what.
      sender account   cfg  = sequence of the weights of its registered signers 1..Len(cfg)   (<<>> = plain account)
      signature        [by, v, old]
-                      by  = 0 the account's own key | i in 1..3 the key of registered signer i | 9 a foreign key
+                      by  = 0 the account's own key | i >= 1 the key of registered signer i | 999 a foreign key
                       v   = 0 the signature as produced | 1 its s -> n-s re-encoding (same signer, other bytes)
                       old = TRUE: the signature was made BEFORE field f of the transaction was changed
      c.sigs           the sender-side signatures, in transaction order (removal / repetition / substitution of
@@ -33,13 +33,14 @@ CONSTANTS Weights,      \* weights a registered signer may have
           PayFields,    \* fields tampered in the gas-payer sweep
           BoxCfgs,      \* sender configurations used in the box sweep
           Kinds,        \* transaction kinds (besides transfer) in the kind sweep
+          ReconfCfgs,   \* sender configurations used in the re-configuration sweep
           NewCfgs,      \* target configurations of re-configuration transactions
           Slices,       \* which sweeps are generated: subset of {"sigs","tamper","payer","box","kinds","reconf"}
           Dev           \* deviations switched on (design: {})
 
 Threshold == 100
 Own == 0
-Foreign == 9
+Foreign == 999
 Fields == {"to", "amount", "gasPrice", "gasLimit", "data", "expiration", "chainID", "type", "toName", "message",
            "gasPayer", "version"}
 GasTerms == {"gasPrice", "gasLimit"}
@@ -77,7 +78,7 @@ Canonical(cfg, c) == /\ CanonSigs(cfg, SenderScope(c), c.f, c.sigs)
                      /\ (c.pay = "self" => c.psigs = <<>>)
 
 (* ------------------------------------------------------------------ the node's decision procedure *)
-Garbage == 99      \* a signature over other content recovers to an address nobody holds
+Garbage == 998     \* a signature over other content recovers to an address nobody holds
 Recovered(scope, f, sigs) == [i \in 1..Len(sigs) |-> IF Counts(scope, f, sigs[i]) THEN sigs[i].by ELSE Garbage]
 CheckWeight(D, cfg, rec) ==
   /\ Len(rec) > 0
@@ -132,6 +133,7 @@ KindCases(cfg) ==
   {Case(cfg, k, SigsOf(Full(cfg), TRUE), f, "self", NoCfg, <<>>, "none", NoCfg) : k \in Kinds, f \in TamperFields \cap {"to", "data", "type", "amount"}}
 \* 6. the account's signers are replaced (the decision is taken against the signers registered BEFORE the transaction)
 ReconfCases(cfg) ==
+  IF cfg \notin ReconfCfgs THEN {} ELSE
   {Case(cfg, "signers", s, "none", "self", NoCfg, <<>>, "none", n) : n \in NewCfgs \ {cfg}, s \in SeqsUpTo(FreshSigs(cfg), 2)} \cup
   {Case(cfg, "signers", SigsOf(Full(cfg), TRUE), "data", "self", NoCfg, <<>>, "none", n) : n \in NewCfgs \ {cfg}}
 Cases(cfg) == (IF "sigs" \in Slices THEN SigCases(cfg) ELSE {}) \cup
